@@ -306,6 +306,19 @@ _VIEW_OPS = ("memref.subview", "snax.layout_cast", "memref.memory_space_cast", "
 _FULL = re.compile(r"Memory space (\S+) is full, cannot allocate (\d+) bytes")
 
 
+_KNOWN: list = []
+
+
+def _known_signatures():
+    """Signatures listed as known findings (read once per process). A case may show several mismatches; the first one that is
+    not listed is raised, the listed ones are reported through Info.known so the search continues past them."""
+    if not _KNOWN:
+        from vlib.runner import load_known
+
+        _KNOWN.append(set(load_known(ID)))
+    return _KNOWN[0]
+
+
 def _static_sim(bufs, sizes, mems):
     """Bump allocation in program order (the documented static scheme): ("ok", {k: addr}) or ("full", first k that does not fit)."""
     bump = {n: m["start"] for n, m in mems.items()}
@@ -615,9 +628,7 @@ def prop_place(r):
 
     known = []
     if problems:
-        from vlib.runner import load_known
-
-        kn = load_known(ID)
+        kn = _known_signatures()
         for sig, det in problems:
             if sig not in kn:
                 raise Violation(sig, det)
